@@ -16,6 +16,7 @@
   the entry's own signature, are decided by the correspondence run.
 -/
 import FFS.Model.Ffi
+import FFS.Props.C13
 namespace FFS.Props.C20
 open FFS FFS.Model.Abi FFS.Model.Ffi
 
@@ -32,7 +33,7 @@ theorem missing_details_is_error (fuel : Nat) (name : String) (s : Schema) (h : 
 
 /-- an array schema with no (innermost) `items` -/
 theorem array_without_items_is_error (fuel : Nat) (name : String) (s : Schema) (d : Details)
-    (hd : s.details = some d) (ht : s.type = "array") (hi : Model.Ffi.innermostItems 64 s.items = none) :
+    (hd : s.details = some d) (ht : s.type = "array") (hi : Model.Ffi.innermostItems (max 64 (optSize s.items)) s.items = none) :
     processField (fuel + 1) name (some s) = .err := by
   have hne : ¬ ("array" = "object") := by decide
   simp [processField, hd, ht, hne, facts.1, facts.2.1, hi]
@@ -86,7 +87,7 @@ theorem colliding_index_is_error (fuel : Nat) (k : String) (so : Option Schema) 
 
 /-- the JSON type of the schema at odds with the Ethereum type -/
 theorem type_mismatch_is_error (name : String) (sc : Schema) (p : Param) (t : Ty)
-    (hp : processField 64 name (some sc) = .ok p) (ht : parseParam p = .ok t) (hv : inputTypeValid sc t = false) :
+    (hp : processField (fieldFuel (some sc)) name (some sc) = .ok p) (ht : parseParam p = .ok t) (hv : inputTypeValid sc t = false) :
     convertParam true name (some sc) = .err := by
   simp [convertParam, hp, ht, hv]
 
@@ -176,6 +177,170 @@ theorem buildParams_no_hole_panic (fuel : Nat) (props : List (String × Option S
     buildParams (fuel + 1) (some props) = .ok (slots.filterMap id) := by
   rw [buildParams]
   simp only [h, no_holes fuel _ slots h, if_true]
+
+/-! ## totality: no schema makes the conversion panic -/
+
+theorem optSize_pos (so : Option Schema) : 1 ≤ optSize so := by cases so <;> simp [optSize]
+theorem listSize_pos (l : List (String × Option Schema)) : 1 ≤ listSize l := by
+  cases l with
+  | nil => simp [listSize]
+  | cons a r => obtain ⟨k, so⟩ := a; simp [listSize]; omega
+
+theorem dedupLast_size : ∀ (l : List (String × Option Schema)), listSize (dedupLast l) ≤ listSize l
+  | [] => by simp [dedupLast]
+  | (k, so) :: rest => by
+    have ih := dedupLast_size rest
+    rw [dedupLast]
+    split
+    · simp only [listSize]; omega
+    · simp only [listSize]; omega
+
+theorem size_props (s : Schema) : propsSize s.props < s.size := by
+  cases s with | mk t o d p i => simp [Schema.props, Schema.size]; have := optSize_pos i; omega
+
+theorem size_items (s : Schema) : optSize s.items < s.size := by
+  cases s with | mk t o d p i =>
+    simp [Schema.items, Schema.size]
+    have : 1 ≤ propsSize p := by cases p <;> simp [propsSize]
+    omega
+
+/-- the schema `innermostItems` stops at is part of the one it started from -/
+theorem innermost_size : ∀ (n : Nat) (so : Option Schema) (it : Schema), innermostItems n so = some it →
+    1 + it.size ≤ optSize so
+  | 0, so, it, h => by simp only [innermostItems] at h; subst h; simp [optSize]
+  | n + 1, none, it, h => by simp [innermostItems] at h
+  | n + 1, some s, it, h => by
+    simp only [innermostItems] at h
+    split at h
+    · have := innermost_size n s.items it h
+      have := size_items s
+      simp only [optSize]; omega
+    · injection h with h; subst h; simp [optSize]
+
+/-- **Fuel sufficiency = totality of the schema → ABI conversion.** With more fuel than the size of the schema, none of
+    the three mutually recursive functions of the model panics — whatever the schema contains (null properties,
+    missing details, missing `items`, missing / negative / out-of-range / colliding positions, any nesting): the
+    only panics of the model are running out of fuel (excluded here) and the nil-parameter hole (excluded by
+    `no_holes`). By induction on the fuel. -/
+theorem conversion_total : ∀ f : Nat,
+    (∀ name so, optSize so < f → processField f name so ≠ .panic) ∧
+    (∀ props, propsSize props < f → buildParams f props ≠ .panic) ∧
+    (∀ ps slots, listSize ps < f → placeAll f ps slots ≠ .panic) := by
+  intro f
+  induction f with
+  | zero =>
+    refine ⟨fun _ so h => ?_, fun props h => ?_, fun ps _ h => ?_⟩ <;> omega
+  | succ f ih =>
+    obtain ⟨iF, iB, iP⟩ := ih
+    have hg : Gen.FfiFacts.guards = true := facts.1
+    have hi : Gen.FfiFacts.innermostItems = true := facts.2.1
+    refine ⟨?_, ?_, ?_⟩
+    · intro name so hsz
+      cases so with
+      | none => simp [processField, hg]
+      | some s =>
+        rw [processField]
+        cases hd : s.details with
+        | none => simp
+        | some d =>
+          simp only []
+          simp only [optSize] at hsz
+          have hp := size_props s
+          have hit := size_items s
+          by_cases hobj : (s.type == "object") = true
+          · simp only [hobj, if_true]
+            have := iB s.props (by omega)
+            cases hb : buildParams f s.props with
+            | ok cs => simp
+            | err => simp
+            | panic => exact absurd hb this
+          · simp only [hobj, Bool.false_eq_true, if_false]
+            by_cases harr : (s.type == "array") = true
+            · simp only [harr, if_true, hi]
+              cases hin : innermostItems (max 64 (optSize s.items)) s.items with
+              | none => simp [hg]
+              | some it =>
+                simp only []
+                have h1 := innermost_size _ s.items it hin
+                have h2 := size_props it
+                have := iB it.props (by omega)
+                cases hb : buildParams f it.props with
+                | ok cs => simp
+                | err => simp
+                | panic => exact absurd hb this
+            · simp [harr]
+    · intro props hsz
+      cases props with
+      | none => simp [buildParams]
+      | some props =>
+        simp only [propsSize] at hsz
+        have hds := dedupLast_size props
+        have := iP (dedupLast props) (List.replicate (dedupLast props).length none) (by omega)
+        cases hpl : placeAll f (dedupLast props) (List.replicate (dedupLast props).length none) with
+        | ok slots => rw [buildParams_no_hole_panic f props slots hpl]; simp
+        | err => simp [buildParams, hpl]
+        | panic => exact absurd hpl this
+    · intro ps slots hsz
+      cases ps with
+      | nil => simp [placeAll]
+      | cons e rest =>
+        obtain ⟨k, so⟩ := e
+        simp only [listSize] at hsz
+        have hr := listSize_pos rest
+        have hF := iF k so (by omega)
+        rw [placeAll]
+        cases hpf : processField f k so with
+        | panic => exact absurd hpf hF
+        | err => simp
+        | ok p =>
+          simp only [hg, if_true]
+          cases (so.bind fun s => s.details.bind (·.index)) with
+          | none => simp
+          | some i =>
+            simp only []
+            cases placeAt slots i p with
+            | none => simp
+            | some slots' => exact iP rest slots' (by omega)
+
+/-- `processField` on any schema, with the fuel `convertParam` gives it -/
+theorem processField_total (name : String) (so : Option Schema) : processField (fieldFuel so) name so ≠ .panic :=
+  (conversion_total (fieldFuel so)).1 name so (by unfold fieldFuel; omega)
+
+/-- **Converting an arbitrary parameter schema never panics** (`parseParam` does not panic either: C13 `parse_total`) -/
+theorem convertParam_total (metaOK : Bool) (name : String) (so : Option Schema)
+    (hparse : ∀ p, parseParam p ≠ .panic) : convertParam metaOK name so ≠ .panic := by
+  unfold convertParam
+  cases metaOK with
+  | false => simp
+  | true =>
+    simp only [Bool.not_true, Bool.false_eq_true, if_false]
+    have := processField_total name so
+    cases hpf : processField (fieldFuel so) name so with
+    | panic => exact absurd hpf this
+    | err => simp
+    | ok p =>
+      simp only []
+      have hp := hparse p
+      cases hpp : parseParam p with
+      | panic => exact absurd hpp hp
+      | err => simp
+      | ok t =>
+        simp only []
+        cases so with
+        | none => simp
+        | some sc => simp only []; split <;> simp
+
+/-- … closed with C13's `parse_total`: **no interface parameter schema whatsoever makes the conversion panic** -/
+theorem convertParam_never_panics (metaOK : Bool) (name : String) (so : Option Schema) :
+    convertParam metaOK name so ≠ .panic :=
+  convertParam_total metaOK name so FFS.Props.C13.parse_total
+
+/-- non-vacuity of `conversion_total`: a schema with a null property, a missing `items` and colliding positions has a
+    finite size, so the fuel hypothesis is satisfiable for it -/
+example : optSize (some (Schema.mk "object" none (some { type := "tuple", internalType := "", indexed := false, index := none })
+    (some [("a", none), ("b", some (Schema.mk "array" none (some { type := "uint256[]", internalType := "", indexed := false, index := some 0 }) none none)),
+           ("c", some (Schema.mk "string" none (some { type := "string", internalType := "", indexed := false, index := some 0 }) none none))]) none)) < 64 := by
+  decide
 
 /-! ## ABI → FFI → ABI round trip -/
 
@@ -360,7 +525,7 @@ theorem field_of_comps (t : Ty) (name : String) (d d' : Details) (comps : List P
     rw [ht, hi]
     have hne : (("array" : String) == "object") = false := by decide
     simp only [hne, Bool.false_eq_true, if_false, beq_self_eq_true, if_true, facts.2.1]
-    rw [innermost_core d comps c 64 (by simp [arrayDepth] at hdepth; omega)]
+    rw [innermost_core d comps c _ (by simp [arrayDepth] at hdepth; omega)]
     simp only [withDetails_props]
     have : core (.farr c k) = core c := rfl
     rw [this] at hcomps
@@ -372,7 +537,7 @@ theorem field_of_comps (t : Ty) (name : String) (d d' : Details) (comps : List P
     rw [ht, hi]
     have hne : (("array" : String) == "object") = false := by decide
     simp only [hne, Bool.false_eq_true, if_false, beq_self_eq_true, if_true, facts.2.1]
-    rw [innermost_core d comps c 64 (by simp [arrayDepth] at hdepth; omega)]
+    rw [innermost_core d comps c _ (by simp [arrayDepth] at hdepth; omega)]
     simp only [withDetails_props]
     have : core (.darr c) = core c := rfl
     rw [this] at hcomps
